@@ -233,14 +233,56 @@ func overlap(c *lib.Ctx, kindA, kindB string) (sched, error) {
 	select {
 	case <-doneA:
 	case <-time.After(20 * time.Second):
-		return s, lib.Infra("goroutine A did not finish")
+		return s, stuck(&s, "A")
 	}
 	select {
 	case <-doneB:
 	case <-time.After(20 * time.Second):
-		return s, lib.Infra("goroutine B did not finish")
+		return s, stuck(&s, "B")
 	}
 	return s, nil
+}
+
+// stuck decides what a goroutine that does not finish after every gate has been opened means: if the
+// goroutine dump shows goroutines blocked in a sync lock called from pkg/eval and none waiting at a
+// gate of this harness, the real Evaler has deadlocked (a violation: evaluations must complete);
+// anything else is a defect of the driver (exit 2).
+func stuck(s *sched, who string) error {
+	buf := make([]byte, 4<<20)
+	buf = buf[:runtime.Stack(buf, true)]
+	var blocked []string
+	atGate := false
+	for _, g := range strings.Split(string(buf), "\n\n") {
+		if strings.Contains(g, "installGates.func1") {
+			atGate = true
+		}
+		if !strings.Contains(g, "src.elv.sh/pkg/eval.") {
+			continue
+		}
+		lines := strings.Split(g, "\n")
+		if len(lines) < 2 || !(strings.Contains(lines[0], "sync.RWMutex") || strings.Contains(lines[0], "sync.Mutex") || strings.Contains(g, "sync.(*RWMutex).") || strings.Contains(g, "sync.(*Mutex).Lock")) {
+			continue
+		}
+		var fr []string
+		for _, l := range lines[1:] {
+			if strings.HasPrefix(l, "sync.(") || strings.HasPrefix(l, "src.elv.sh/pkg/eval.") {
+				if i := strings.LastIndex(l, "("); i > 0 {
+					l = l[:i]
+				}
+				fr = append(fr, strings.TrimPrefix(l, "src.elv.sh/pkg/"))
+			}
+			if len(fr) == 4 {
+				break
+			}
+		}
+		blocked = append(blocked, strings.Join(fr, " < "))
+	}
+	if atGate || len(blocked) == 0 {
+		return lib.Infra("goroutine %s did not finish (at a gate: %v, goroutines blocked in a lock under pkg/eval: %d)", who, atGate, len(blocked))
+	}
+	s.Steps = append(s.Steps, fmt.Sprintf("every gate is open, yet goroutine %s does not finish within 20 s; %d goroutine(s) blocked in a lock under pkg/eval: %s", who, len(blocked), strings.Join(blocked, " || ")))
+	s.Result = "deadlock"
+	return nil
 }
 
 // twice: A has missed the cache for module m and is parked before installing it; B imports m completely.
@@ -267,11 +309,15 @@ func twice(c *lib.Ctx) (sched, error) {
 		s.Steps = append(s.Steps, "B waits for A's import")
 	}
 	gt.release(gA)
-	<-doneA
+	select {
+	case <-doneA:
+	case <-time.After(20 * time.Second):
+		return s, stuck(&s, "A")
+	}
 	select {
 	case <-doneB:
 	case <-time.After(20 * time.Second):
-		return s, lib.Infra("goroutine B did not finish")
+		return s, stuck(&s, "B")
 	}
 	w.mu.Lock()
 	n := w.ticks["ma"]
@@ -310,11 +356,15 @@ func partial(c *lib.Ctx) (sched, error) {
 	case <-time.After(reach):
 	}
 	gt.release(gA)
-	<-doneA
+	select {
+	case <-doneA:
+	case <-time.After(20 * time.Second):
+		return s, stuck(&s, "A")
+	}
 	select {
 	case <-doneB:
 	case <-time.After(20 * time.Second):
-		return s, lib.Infra("goroutine B did not finish")
+		return s, stuck(&s, "B")
 	}
 	if finished && out.Err == nil && len(out.Values) == 1 {
 		if v, ok := out.Values[0].(string); ok && strings.HasPrefix(v, "ma#") {
@@ -364,6 +414,20 @@ func run(c *lib.Ctx) error {
 			candidates[r.ErrName] = fmt.Sprintf("%d-state counterexample", len(r.TraceStates()))
 		}
 	}
+	for _, nested := range []string{"FALSE", "TRUE"} {
+		text := fmt.Sprintf("CONSTANTS Procs = {1, 2, 3} NestedRead = %s\nCONSTANT Scripts <- ScriptsDef\nSPECIFICATION Spec\nINVARIANT MutualExclusion\nCHECK_DEADLOCK TRUE\n", nested)
+		r, err := c.TLC("MCEvalerLock nested="+nested, lib.TLCRun{Dir: dir, Module: "MCEvalerLock", Cfg: "lock.cfg", Workers: 2, Timeout: 5 * time.Minute, Deadlock: true,
+			Files: map[string][]byte{"lock.cfg": []byte(text)}})
+		if err != nil {
+			return err
+		}
+		if (nested == "TRUE") != (r.ErrKind == "deadlock") || (nested == "FALSE" && r.ErrKind != "") {
+			return lib.Infra("lock model NestedRead=%s: TLC reported %q %s", nested, r.ErrKind, r.Err)
+		}
+		if r.ErrKind == "deadlock" {
+			candidates["Completes (nested read lock)"] = fmt.Sprintf("%d-state counterexample", len(r.TraceStates()))
+		}
+	}
 	c.Set("model_candidates", candidates)
 
 	// ---- G: replay the candidates on the real code
@@ -393,6 +457,8 @@ func run(c *lib.Ctx) error {
 		switch s.Result {
 		case "overlap":
 			c.Reject("evaler:modules-map-unsynchronised", "schedule "+s.Name+" reproduced on the real Evaler: two goroutines inside access windows on Evaler.modules, one writing, no common lock: "+strings.Join(s.Steps, "; "), s)
+		case "deadlock":
+			c.Reject("evaler:deadlock:"+s.Name, "schedule "+s.Name+" on the real Evaler never completes (EvalerLock: Completes): "+strings.Join(s.Steps, "; "), s)
 		case "evaluated-twice":
 			c.Reject("evaler:concurrent-use-evaluates-twice", "schedule reproduced on the real Evaler: "+strings.Join(s.Steps, "; "), s)
 		case "partial-namespace-observed":
